@@ -165,6 +165,52 @@ func setLoop(p *Prog, r *Report, rule string) (*FuncInfo, *Flat, *ast.RangeStmt)
 				bodyOK = false
 			}
 		}
+		// ... and what it returns then says "no free space": the sentinel itself, or an error that keeps it in its
+		// chain (seeded C12-B, round 6: the error of the last failed attempt was returned instead, whose chain ends in
+		// the operating system's ENOSPC: inline callers see a wrong class, gRPC callers ErrUnknown)
+		noSpace := func(e ast.Expr) bool {
+			var is func(e ast.Expr, depth int) bool
+			is = func(e ast.Expr, depth int) bool {
+				e = ast.Unparen(e)
+				if exprObjKey(info, e) == "fs_db.ErrNoFreeSpace" {
+					return true
+				}
+				c, ok := e.(*ast.CallExpr)
+				if !ok || depth > 3 {
+					return false
+				}
+				if isFunc(info, c, "errors", "Join") {
+					for _, a := range c.Args {
+						if is(a, depth+1) {
+							return true
+						}
+					}
+				}
+				if isFunc(info, c, "fmt", "Errorf") && len(c.Args) > 1 {
+					format, _ := constStr(info, c.Args[0])
+					verbs := fmtVerbs(format)
+					for i, a := range c.Args[1:] {
+						if i < len(verbs) && verbs[i] == 'w' && is(a, depth+1) {
+							return true
+						}
+					}
+				}
+				return false
+			}
+			return is(e, 0)
+		}
+		for _, id := range g.ReturnNodes() {
+			if !reach[id] {
+				continue
+			}
+			rs := g.returnStmt(id)
+			if rs == nil || len(rs.Results) == 0 {
+				continue
+			}
+			last := rs.Results[len(rs.Results)-1]
+			r.Check(noSpace(last), rule, kStoreSet+"#no-directory-left-is-ErrNoFreeSpace", p.pos(rs), "with no directory left Set fails with ErrNoFreeSpace",
+				"when the iterator reports that no directory is left Set returns "+types.ExprString(last)+", an error that is not ErrNoFreeSpace: the caller cannot tell a full store from a broken one (over gRPC it arrives as ErrUnknown)")
+		}
 	}
 	r.Check(bodyOK, rule, kStoreSet+"#terminal-sentinel-handled", p.pos(loop), "when the iterator reports !ok the loop body returns (no store, no continue)",
 		"when the iterator reports that no directory is left the loop body can still store or continue")
